@@ -17,15 +17,17 @@ pub fn start() -> impl Strategy<Value = Start> {
 }
 
 pub fn ring_cfg(max_sq_log2: u8) -> impl Strategy<Value = RingCfg> {
-    (0..=max_sq_log2, proptest::option::of(0u8..=6), start(), start(), any::<bool>(), proptest::bool::weighted(0.2)).prop_map(|(sq_log2, cq_log2, sq_start, cq_start, alt_layout, defer_taskrun)| RingCfg {
+    (0..=max_sq_log2, proptest::option::of(0u8..=6), start(), start(), any::<bool>(), proptest::bool::weighted(0.2), proptest::bool::weighted(0.15)).prop_map(|(sq_log2, cq_log2, sq_start, cq_start, alt_layout, defer_taskrun, sqpoll)| RingCfg {
         sq_log2,
         cq_log2,
         sq_start,
         cq_start,
-        sqpoll: false,
+        // A kernel thread consuming the queue (driven by the history's
+        // kernel-thread steps).
+        sqpoll,
         direct_slots: 0,
         alt_layout,
-        defer_taskrun,
+        defer_taskrun: defer_taskrun && !sqpoll,
     })
 }
 
@@ -127,6 +129,8 @@ pub fn kact() -> impl Strategy<Value = KAct> {
         2 => (0u8..4, prop_oneof![Just(0i32), Just(-libc::ENOENT), Just(-libc::EALREADY), Just(-libc::EINVAL), any::<i32>()], 0u8..8).prop_map(|(ud, res, flags)| KAct::Book { ud, res, flags }),
         1 => (any::<u64>(), any::<i32>()).prop_map(|(garbage, res)| KAct::Skip { garbage, res }),
         1 => Just(KAct::Flush),
+        2 => Just(KAct::SqpollConsume),
+        1 => Just(KAct::SqpollIdle),
     ]
 }
 
